@@ -1,5 +1,354 @@
 import Driver.Util
+import KavaVerif.Model.Evmutil
+/-!
+  C10 driver. One self-contained case per line: the implementation's observed pre-state, the
+  operation, the implementation's result class and observed post-state. The handler
+  (1) runs the Lean model on the observed pre-state and compares (MISMATCH), and
+  (2) evaluates the property's predicates on the implementation's own observation (PREDFAIL),
+      independently of the model.
+
+  c10.op fields:
+    kind denoms U blocked | tags pairs allowed reg bank supply ebal total | a b x amt "=>" result |
+    tags' pairs' allowed' reg' bank' supply' ebal' total'
+    kind ∈ c2e e2c cc2e e2cc (the four messages) | xfer send xmint (environment) | pairs allow (params)
+    contracts are tags x<n> (external) / d<k> (k-th deployed by the module); parties are indices,
+    0 = module, 1 = zero address; pairs/reg are `tag=denom` lists; bank/ebal are `;`-separated rows.
+  c10.rt fields (round trip = two successful messages, the second undoing the first):
+    kind denoms U blocked | pre (8) | a b x amt "=>" | post (8)      kind ∈ native | cosmos
+-/
 namespace Drv.C10
+open KV KV.EU
+
+structure Obs where
+  tags : List String
+  pairs : List (String × String)
+  allowed : List String
+  reg : List (String × String)
+  bank : List (List Int)
+  supply : List Int
+  ebal : List (List Int)
+  total : List Int
+deriving BEq
+
+def rows? (s : String) : Option (List (List Int)) :=
+  let t := s.trimAscii.toString
+  if t == "" || t == "-" then some [] else (t.splitOn ";").mapM ints?
+
+def pairs? (s : String) : Option (List (String × String)) :=
+  (strs s).mapM fun e => match e.splitOn "=" with
+    | [a, b] => some (a, b)
+    | _ => none
+
+def obs? : List String → Option Obs
+  | [tags, pairs, allowed, reg, bank, supply, ebal, total] => do
+    let pairs ← pairs? pairs
+    let reg ← pairs? reg
+    let bank ← rows? bank
+    let supply ← ints? supply
+    let ebal ← rows? ebal
+    let total ← ints? total
+    some ⟨strs tags, pairs, strs allowed, reg, bank, supply, ebal, total⟩
+  | _ => none
+
+def contract? (t : String) : Option Contract :=
+  if t.startsWith "x" then (t.drop 1).toString.toNat?.map Contract.ext
+  else if t.startsWith "d" then (t.drop 1).toString.toNat?.map Contract.dep
+  else none
+
+def tagOf : Contract → String
+  | .ext n => s!"x{n}"
+  | .dep k => s!"d{k}"
+
+def cell (m : List (List Int)) (i a : Nat) : Int := (m.getD i []).getD a 0
+
+def bankAt (denoms : List String) (o : Obs) (d : String) (a : Nat) : Int :=
+  match denoms.idxOf? d with
+  | some i => cell o.bank i a
+  | none => 0
+
+def supplyAt (denoms : List String) (o : Obs) (d : String) : Int :=
+  match denoms.idxOf? d with
+  | some i => o.supply.getD i 0
+  | none => 0
+
+def ebalAt (o : Obs) (t : String) (a : Nat) : Int :=
+  match o.tags.idxOf? t with
+  | some i => cell o.ebal i a
+  | none => 0
+
+def totalAt (o : Obs) (t : String) : Int :=
+  match o.tags.idxOf? t with
+  | some i => o.total.getD i 0
+  | none => 0
+
+def regTag (o : Obs) (d : String) : Option String := (o.reg.find? (·.2 == d)).map (·.1)
+
+def nDep (o : Obs) : Nat := (o.tags.filter (·.startsWith "d")).length
+
+def toPairs (l : List (String × String)) : List Pair :=
+  l.filterMap fun p => (contract? p.1).map (·, p.2)
+
+def stOf (denoms : List String) (o : Obs) : St :=
+  { bank := fun d a => bankAt denoms o d a
+    supply := fun d => supplyAt denoms o d
+    ebal := fun c a => ebalAt o (tagOf c) a
+    etotal := fun c => totalAt o (tagOf c)
+    reg := fun d => match regTag o d with
+      | some t => match contract? t with
+        | some (.dep k) => some k
+        | _ => none
+      | none => none
+    nextC := nDep o
+    pairs := toPairs o.pairs
+    allowed := o.allowed }
+
+def showRows (m : List (List Int)) : String :=
+  if m.isEmpty then "-" else ";".intercalate (m.map showInts)
+
+/-- canonical text of a state (model or implementation) over the implementation's post tag list -/
+def canonSt (denoms tags : List String) (nParties : Nat) (s : St) : String :=
+  let ps := List.range nParties
+  let cs := tags.filterMap contract?
+  let regs := denoms.map fun d => match s.reg d with | some k => s!"d{k}" | none => "-"
+  " pairs=" ++ ",".intercalate (s.pairs.map fun p => tagOf p.1 ++ "=" ++ p.2) ++
+  " allowed=" ++ ",".intercalate s.allowed ++
+  " reg=" ++ ",".intercalate regs ++
+  " bank=" ++ showRows (denoms.map fun d => ps.map (s.bank d)) ++
+  " supply=" ++ showInts (denoms.map s.supply) ++
+  " ebal=" ++ showRows (cs.map fun c => ps.map (s.ebal c)) ++
+  " total=" ++ showInts (cs.map s.etotal)
+
+def opOf (kind : String) (a b : Nat) (x : String) (amt : Int) : Option Op :=
+  match kind with
+  | "c2e" => some (.coinToErc a b x amt)
+  | "e2c" => (contract? x).map fun c => .ercToCoin a b c amt
+  | "cc2e" => some (.cosmosToErc a b x amt)
+  | "e2cc" => some (.cosmosFromErc a b x amt)
+  | "xfer" => (contract? x).map fun c => .transfer c a b amt
+  | "send" => some (.send x a b amt)
+  | "xmint" => (contract? x).map fun c => .extMint c b amt
+  | "pairs" => (pairs? x).map fun l => .setPairs (toPairs l)
+  | "allow" => some (.setAllowed (strs x))
+  | _ => none
+
+/-! predicates on the implementation's observation -/
+
+def sumL (l : List Int) : Int := l.foldl (· + ·) 0
+
+def isBep3S (d : String) : Bool := KV.Gen.bep3Denoms.contains d
+def scaleS (d : String) : Int := if isBep3S d then KV.Gen.bep3ConversionFactor else 1
+
+/-- state predicates (the invariants of the property) -/
+def statePred (denoms : List String) (U : List (String × String)) (o : Obs) : Option (String × String) :=
+  -- every registered cosmos denom: ERC20 totalSupply = module bank balance
+  match o.reg.find? (fun p => totalAt o p.1 != bankAt denoms o p.2 0) with
+  | some p => some ("C10_cosmos_backed", s!"total-ne-module-balance {p.2}")
+  | none =>
+  match denoms.find? (fun d => (regTag o d).isNone && bankAt denoms o d 0 != 0) with
+  | some d => some ("C10_cosmos_backed", s!"module-holds-unregistered-coin {d}")
+  | none =>
+  -- every pair of the universe (enabled or not): supply·scale ≤ ERC20 locked in the module's EVM account
+  match U.find? (fun p => supplyAt denoms o p.2 * scaleS p.2 > ebalAt o p.1 0) with
+  | some p => some ("C10_evm_native_backed", s!"supply-exceeds-locked {p.2}")
+  | none =>
+  -- the trusted ledger: totalSupply = Σ balances, balances ≥ 0
+  match (List.range o.tags.length).find? (fun i => sumL (o.ebal.getD i []) != o.total.getD i 0) with
+  | some i => some ("C10_ledger_total", s!"total-ne-sum {o.tags.getD i "?"}")
+  | none =>
+  if o.ebal.any (·.any (· < 0)) || o.bank.any (·.any (· < 0)) then some ("C10_ledger_total", "negative-balance")
+  else none
+
+/-- cells that differ between two matrices (missing rows/cells count as 0) -/
+def diffCells (pre post : List (List Int)) : List (Nat × Nat) :=
+  let nr := max pre.length post.length
+  (List.range nr).flatMap fun i =>
+    let nc := max (pre.getD i []).length (post.getD i []).length
+    (List.range nc).filterMap fun a => if cell pre i a != cell post i a then some (i, a) else none
+
+def diffList (pre post : List Int) : List Nat :=
+  (List.range (max pre.length post.length)).filter fun i => pre.getD i 0 != post.getD i 0
+
+def subsetOf {α} [BEq α] (l m : List α) : Bool := l.all m.contains
+
+structure Frame where
+  bank : List (Nat × Nat) := []
+  supply : List Nat := []
+  ebal : List (Nat × Nat) := []
+  total : List Nat := []
+
+/-- nothing outside the frame changed (params and registry are checked by the caller) -/
+def frameOk (pre post : Obs) (f : Frame) : Bool :=
+  subsetOf (diffCells pre.bank post.bank) f.bank && subsetOf (diffList pre.supply post.supply) f.supply &&
+  subsetOf (diffCells pre.ebal post.ebal) f.ebal && subsetOf (diffList pre.total post.total) f.total
+
+def di (denoms : List String) (d : String) : Nat := (denoms.idxOf? d).getD 999
+def ci (o : Obs) (t : String) : Nat := (o.tags.idxOf? t).getD 999
+
+/-- predicates of one successful operation -/
+def okPred (kind : String) (denoms : List String) (pre post : Obs) (a b : Nat) (x : String) (amt : Int) :
+    Option (String × String) :=
+  let paramsSame := pre.pairs == post.pairs && pre.allowed == post.allowed
+  match kind with
+  | "c2e" =>
+    match pre.pairs.find? (·.2 == x) with
+    | none => some ("C10_disabled_refused", "pair-not-enabled-accepted")
+    | some (t, _) =>
+      let v := amt * scaleS x
+      if amt ≤ 0 then some ("C10_value_conserved", "non-positive-amount-accepted")
+      else if bankAt denoms post x a != bankAt denoms pre x a - amt then some ("C10_value_conserved", "initiator-debit")
+      else if ebalAt post t b != ebalAt pre t b + v then some ("C10_value_conserved", "receiver-credit")
+      else if ebalAt post t 0 != ebalAt pre t 0 - v then some ("C10_value_conserved", "module-unlock")
+      else if supplyAt denoms post x != supplyAt denoms pre x - amt then some ("C10_value_conserved", "supply")
+      else if !(frameOk pre post { bank := [(di denoms x, a)], supply := [di denoms x], ebal := [(ci pre t, b), (ci pre t, 0)] }
+                && paramsSame && pre.reg == post.reg) then some ("C10_value_conserved", "frame")
+      else none
+  | "e2c" =>
+    match pre.pairs.find? (·.1 == x) with
+    | none => some ("C10_disabled_refused", "pair-not-enabled-accepted")
+    | some (t, d) =>
+      let debit := ebalAt pre t a - ebalAt post t a
+      let credit := bankAt denoms post d b - bankAt denoms pre d b
+      if amt ≤ 0 then some ("C10_value_conserved", "non-positive-amount-accepted")
+      else if debit > amt then some ("C10_dust_stays", "debited-more-than-asked")
+      else if amt - debit ≥ scaleS d then some ("C10_dust_stays", "whole-unit-not-converted")
+      else if debit % scaleS d != 0 then some ("C10_dust_stays", "dust-taken")
+      else if credit ≤ 0 then some ("C10_value_conserved", "nothing-minted")
+      else if credit * scaleS d != debit then some ("C10_value_conserved", "credit-ne-debit")
+      else if ebalAt post t 0 != ebalAt pre t 0 + debit then some ("C10_value_conserved", "module-lock")
+      else if supplyAt denoms post d != supplyAt denoms pre d + credit then some ("C10_value_conserved", "supply")
+      else if !(frameOk pre post { bank := [(di denoms d, b)], supply := [di denoms d], ebal := [(ci pre t, a), (ci pre t, 0)] }
+                && paramsSame && pre.reg == post.reg) then some ("C10_value_conserved", "frame")
+      else none
+  | "cc2e" =>
+    if !pre.allowed.contains x then some ("C10_disabled_refused", "denom-not-allowed-accepted")
+    else match regTag post x with
+    | none => some ("C10_value_conserved", "no-contract-registered")
+    | some t =>
+      if (regTag pre x).isSome && regTag pre x != some t then some ("C10_value_conserved", "contract-replaced")
+      else if amt ≤ 0 then some ("C10_value_conserved", "non-positive-amount-accepted")
+      else if bankAt denoms post x a != bankAt denoms pre x a - amt then some ("C10_value_conserved", "initiator-debit")
+      else if bankAt denoms post x 0 != bankAt denoms pre x 0 + amt then some ("C10_value_conserved", "module-lock")
+      else if ebalAt post t b != ebalAt pre t b + amt then some ("C10_value_conserved", "receiver-credit")
+      else if totalAt post t != totalAt pre t + amt then some ("C10_value_conserved", "total-supply")
+      else if !(frameOk pre post { bank := [(di denoms x, a), (di denoms x, 0)], ebal := [(ci post t, b)], total := [ci post t] }
+                && paramsSame && (pre.reg.all post.reg.contains) && post.reg.length ≤ pre.reg.length + 1) then
+        some ("C10_value_conserved", "frame")
+      else none
+  | "e2cc" =>
+    match regTag pre x with
+    | none => some ("C10_disabled_refused", "unregistered-denom-accepted")
+    | some t =>
+      if amt ≤ 0 then some ("C10_value_conserved", "non-positive-amount-accepted")
+      else if ebalAt post t a != ebalAt pre t a - amt then some ("C10_value_conserved", "initiator-debit")
+      else if totalAt post t != totalAt pre t - amt then some ("C10_value_conserved", "total-supply")
+      else if bankAt denoms post x b != bankAt denoms pre x b + amt then some ("C10_value_conserved", "receiver-credit")
+      else if bankAt denoms post x 0 != bankAt denoms pre x 0 - amt then some ("C10_value_conserved", "module-unlock")
+      else if !(frameOk pre post { bank := [(di denoms x, b), (di denoms x, 0)], ebal := [(ci pre t, a)], total := [ci pre t] }
+                && paramsSame && pre.reg == post.reg) then some ("C10_value_conserved", "frame")
+      else none
+  | "xfer" =>
+    let d := if a == b then 0 else amt
+    if ebalAt post x a != ebalAt pre x a - d || ebalAt post x b != ebalAt pre x b + d then some ("C10_env_exact", "transfer")
+    else if !(frameOk pre post { ebal := [(ci pre x, a), (ci pre x, b)] } && paramsSame && pre.reg == post.reg) then
+      some ("C10_env_exact", "transfer-frame")
+    else none
+  | "send" =>
+    let d := if a == b then 0 else amt
+    if bankAt denoms post x a != bankAt denoms pre x a - d || bankAt denoms post x b != bankAt denoms pre x b + d then
+      some ("C10_env_exact", "send")
+    else if !(frameOk pre post { bank := [(di denoms x, a), (di denoms x, b)] } && paramsSame && pre.reg == post.reg) then
+      some ("C10_env_exact", "send-frame")
+    else none
+  | "xmint" =>
+    if ebalAt post x b != ebalAt pre x b + amt || totalAt post x != totalAt pre x + amt then some ("C10_env_exact", "mint")
+    else if !(frameOk pre post { ebal := [(ci pre x, b)], total := [ci pre x] } && paramsSame && pre.reg == post.reg) then
+      some ("C10_env_exact", "mint-frame")
+    else none
+  | _ => -- pairs / allow: only params change
+    if !(frameOk pre post {} && pre.reg == post.reg) then some ("C10_env_exact", "params-frame") else none
+
+def parseHead (denoms U blocked : String) : Option (List String × List (String × String) × List Int) := do
+  let U ← pairs? U
+  let bl ← ints? blocked
+  some (strs denoms, U, bl)
+
+def handleOp : Handler
+  | kind :: denoms :: U :: blocked :: rest =>
+    match parseHead denoms U blocked, obs? (rest.take 8), rest.drop 8 with
+    | some (denoms, U, bl), some pre, a :: b :: x :: amt :: _ :: result :: rest2 =>
+      match nat? a, nat? b, int? amt, obs? (rest2.take 8) with
+      | some a, some b, some amt, some post =>
+        if rest2.length != 8 then badInput "arity-post" else
+        let x := x.trimAscii.toString
+        let n := bl.length
+        let blockedF : Addr → Bool := fun i => bl.getD i 0 == 1
+        match opOf kind a b x amt with
+        | none => badInput "op"
+        | some op =>
+          let s := stOf denoms pre
+          -- (1) model vs implementation
+          let res := step blockedF s op
+          let modelCls := if res.isOk then "ok" else "err"
+          if modelCls != result then mismatch "result" modelCls result else
+          let s' := match res with | .ok s' => s' | .err => s
+          let mtxt := canonSt denoms post.tags n s'
+          let itxt := canonSt denoms post.tags n (stOf denoms post)
+          if mtxt != itxt then mismatch "state" mtxt itxt else
+          if (stOf denoms post).nextC != s'.nextC then mismatch "deployed" (toString s'.nextC) (toString (nDep post)) else
+          -- (2) property predicates on the implementation's own observation
+          match statePred denoms U post with
+          | some (nm, why) => predfail nm why
+          | none =>
+            if result == "err" then
+              if pre == post then "ok" else predfail "C10_failed_changes_nothing" "state-changed"
+            else if result == "ok" then
+              match okPred kind denoms pre post a b x amt with
+              | some (nm, why) => predfail nm s!"{why} {kind}"
+              | none => "ok"
+            else predfail "C10_no_panic" kind
+      | _, _, _, _ => badInput "parse-op"
+    | _, _, _ => badInput "parse"
+  | _ => badInput "arity"
+
+/-- round trip: `a` converted `amt` to `b`, then `b` converted the proceeds back to `a`:
+    every balance, supply and total is as before (the registry may have gained an empty contract) -/
+def handleRt : Handler
+  | kind :: denoms :: U :: blocked :: rest =>
+    match parseHead denoms U blocked, obs? (rest.take 8), rest.drop 8 with
+    | some (denoms, _, bl), some pre, a :: b :: x :: amt :: _ :: rest2 =>
+      match nat? a, nat? b, int? amt, obs? (rest2.take 8) with
+      | some a, some b, some amt, some post =>
+        let x := x.trimAscii.toString
+        let blockedF : Addr → Bool := fun i => bl.getD i 0 == 1
+        let s := stOf denoms pre
+        -- model: both messages succeed and restore the balances
+        let ops : Option (Op × (St → Op)) := match kind with
+          | "native" => (contract? x).bind fun c =>
+              match findByContract s.pairs c with
+              | some p => some (.ercToCoin a b c amt, fun _ => .coinToErc b a p.2 (if isBep3 p.2 then amt / F else amt))
+              | none => none
+          | "cosmos" => some (.cosmosToErc a b x amt, fun _ => .cosmosFromErc b a x amt)
+          | _ => none
+        match ops with
+        | none => badInput "rt-op"
+        | some (op1, op2) =>
+          match step blockedF s op1 with
+          | .err => mismatch "rt-first" "err" "ok"
+          | .ok s1 =>
+            match step blockedF s1 (op2 s1) with
+            | .err => mismatch "rt-second" "err" "ok"
+            | .ok s2 =>
+              let n := bl.length
+              let strip (t : String) : String := (t.splitOn " reg=").getD 0 "" ++ " bank=" ++ ((t.splitOn " bank=").getD 1 "")
+              let mtxt := strip (canonSt denoms post.tags n s2)
+              let itxt := strip (canonSt denoms post.tags n (stOf denoms post))
+              if mtxt != itxt then mismatch "rt-state" mtxt itxt else
+              if frameOk pre post {} && pre.pairs == post.pairs && pre.allowed == post.allowed then "ok"
+              else predfail "C10_round_trip" s!"not-restored {kind}"
+      | _, _, _, _ => badInput "parse-rt"
+    | _, _, _ => badInput "parse"
+  | _ => badInput "arity"
+
 /-- handlers of property C10: (command name, handler) -/
-def handlers : List (String × Handler) := []
+def handlers : List (String × Handler) := [("c10.op", handleOp), ("c10.rt", handleRt)]
 end Drv.C10
